@@ -644,10 +644,11 @@ class Miller(Vector3d):
         -------
         m
             Vectors in reciprocal (direct) space if direct (reciprocal)
-            vectors are crossed.
+            vectors are crossed. Cartesian vectors (``"xyz"``) stay
+            Cartesian.
         """
         self._compatible_with(other, raise_error=True)
-        new_fmt = dict(hkl="uvw", uvw="hkl", hkil="UVTW", UVTW="hkil")
+        new_fmt = dict(hkl="uvw", uvw="hkl", hkil="UVTW", UVTW="hkil", xyz="xyz")
         m = self.__class__(xyz=super().cross(other).data, phase=self.phase)
         m.coordinate_format = new_fmt[self.coordinate_format]
         return m
